@@ -28,6 +28,8 @@ type KindInfo struct {
 	// anything outside metadata/status changes).
 	Generation bool
 	Plural     string
+	// OtherVersions are further served versions of the kind (same storage, no conversion: the schema is identical).
+	OtherVersions []string
 }
 
 // Key identifies a stored object. Cluster-scoped kinds always have Namespace "".
@@ -176,6 +178,13 @@ func NewStore(scheme *runtime.Scheme, kinds []KindInfo) *Store {
 			seen[k.GVK.GroupVersion()] = true
 			gvs = append(gvs, k.GVK.GroupVersion())
 		}
+		for _, v := range k.OtherVersions {
+			gv := schema.GroupVersion{Group: k.GVK.Group, Version: v}
+			if !seen[gv] {
+				seen[gv] = true
+				gvs = append(gvs, gv)
+			}
+		}
 	}
 	s.mapper = meta.NewDefaultRESTMapper(gvs)
 	for i := range kinds {
@@ -190,6 +199,10 @@ func NewStore(scheme *runtime.Scheme, kinds []KindInfo) *Store {
 		}
 		s.mapper.AddSpecific(k.GVK, k.GVK.GroupVersion().WithResource(plural),
 			k.GVK.GroupVersion().WithResource(strings.ToLower(k.GVK.Kind)), scope)
+		for _, v := range k.OtherVersions {
+			gvk := schema.GroupVersionKind{Group: k.GVK.Group, Version: v, Kind: k.GVK.Kind}
+			s.mapper.AddSpecific(gvk, gvk.GroupVersion().WithResource(plural), gvk.GroupVersion().WithResource(strings.ToLower(k.GVK.Kind)), scope)
+		}
 	}
 	return s
 }
